@@ -24,6 +24,7 @@ type FuncResult struct {
 	Vacuity  *Obligation
 	Assumes  []*Term
 	Models   []string
+	TypeIDs  map[int]types.Type
 }
 
 func (c *VerifCtx) verifyFunction(ct *Contract) (res *FuncResult) {
@@ -46,6 +47,7 @@ func (c *VerifCtx) verifyFunction(ct *Contract) (res *FuncResult) {
 	info := c.infoOf[ct.StubObj.Pkg()]
 	st0 := NewState()
 	TrueT := True
+	ex.assumes = append(ex.assumes, And(BVSle(BV(0, 64), st0.get("ghost|clock", SBV(64))), BVSlt(st0.get("ghost|clock", SBV(64)), BV(1<<62, 64))))
 	var args []Value
 	for _, p := range fn.Params {
 		v := FreshV(p.Type(), "arg."+p.Name())
@@ -118,6 +120,33 @@ func (c *VerifCtx) verifyFunction(ct *Contract) (res *FuncResult) {
 			ex.frameCheck(ct, info, env, pre, r.st, r.pc)
 		}
 	}
+	// model probes for interface-typed arguments: fields of every dynamic type seen
+	for i, p := range fn.Params {
+		iv, ok := args[i].(IfaceV)
+		if !ok {
+			continue
+		}
+		for id, t := range ex.typeByID {
+			pt, ok := t.(*types.Pointer)
+			if !ok {
+				continue
+			}
+			nt, ok := pt.Elem().(*types.Named)
+			if !ok {
+				continue
+			}
+			if _, ok := nt.Underlying().(*types.Struct); !ok {
+				continue
+			}
+			_ = id
+			pv := ex.fromIface(iv, t)
+			ex.addProbes("arg."+p.Name()+".("+nt.Obj().Name()+")", pv, t, pre, 1)
+		}
+	}
+	for _, o := range ex.obls {
+		o.Probes = ex.probes
+	}
+	res.TypeIDs = ex.typeByID
 	// vacuity: the assumptions at the end of the function must be satisfiable
 	res.Vacuity = &Obligation{Name: res.Name + "/vacuity", Func: res.Name, Kind: "vacuity", PC: True, Goal: False, NAssume: len(ex.assumes), Clause: "requires and assumed facts are satisfiable (expected sat)"}
 	res.Obls = ex.obls
